@@ -112,12 +112,44 @@ fn finding(kind: &str, msg: &str, cfg: u8, text: &str) {
 
 static HOOK: std::sync::Once = std::sync::Once::new();
 
+/// The expansion runs on one long-lived worker thread with a 1 GiB stack: syn's recursive-descent parsers use one stack
+/// frame chain per nesting level (`<<<<<<…` as nested qualified paths, `((((…`), which overflows the default 8 MiB stack
+/// under AddressSanitizer for a few hundred levels. Stack exhaustion by nesting depth is a limit of every syn-based
+/// macro (and of rustc's own recursion limit), not a question the property asks; inputs are at most 600 bytes.
+fn on_big_stack(data: Vec<u8>) {
+    use std::sync::mpsc::{channel, Receiver, Sender};
+    use std::sync::Mutex;
+    static CHAN: Mutex<Option<(Sender<Vec<u8>>, Receiver<()>)>> = Mutex::new(None);
+    let mut g = CHAN.lock().unwrap_or_else(|e| e.into_inner());
+    if g.is_none() {
+        let (tx, rx) = channel::<Vec<u8>>();
+        let (dtx, drx) = channel::<()>();
+        std::thread::Builder::new()
+            .stack_size(1 << 30)
+            .spawn(move || {
+                while let Ok(d) = rx.recv() {
+                    one_input(&d);
+                    let _ = dtx.send(());
+                }
+            })
+            .expect("worker thread");
+        *g = Some((tx, drx));
+    }
+    let (tx, drx) = g.as_ref().unwrap();
+    tx.send(data).expect("worker alive");
+    drx.recv().expect("worker alive");
+}
+
 fuzz_target!(|data: &[u8]| {
     // libfuzzer-sys installs an aborting panic hook; the monitor classifies panics itself (catch_unwind in lab::expand)
     HOOK.call_once(|| std::panic::set_hook(Box::new(|_| {})));
     if data.len() < 2 {
         return;
     }
+    on_big_stack(data.to_vec());
+});
+
+fn one_input(data: &[u8]) {
     let cfg = data[0] & 7;
     let text = if data[0] & 0x80 != 0 {
         match std::str::from_utf8(&data[1..]) {
@@ -155,4 +187,4 @@ fuzz_target!(|data: &[u8]| {
             }
         }
     }
-});
+}
